@@ -2,6 +2,9 @@ import VlsModel.Props.C18
 import VlsModel.Gen.FnByteUtils
 import VlsModel.Gen.FnChanId
 import VlsModel.Gen.FnDerive
+import VlsModel.Gen.FnDeriveKeys
+import VlsModel.Gen.FnKeysMgr
+import VlsModel.Gen.FnDeriveLdk
 import VlsModel.Gen.FnChannel
 import VlsModel.Lemmas.FnGen
 /-
@@ -350,5 +353,420 @@ example : Gen.FnByteUtils.slice_to_be64 [0, 0, 0, 0, 127, 255, 255, 255, 9, 9] =
     ∧ Gen.FnByteUtils.slice_to_be64 [0, 0, 0, 1, 0, 0, 0, 0] = .ok 4294967296
     ∧ Gen.FnByteUtils.slice_to_be64 [1, 2, 3] = .error .panic := by
   refine ⟨?_, ?_, ?_⟩ <;> rfl
+
+
+/-! ## derive.rs (round 9): the bodies of `channel_keys` (Native, Lnd), `master_key`, `node_keys` (all three styles),
+`get_account_extended_key*`, `KeyDerivationStyle::from_str` as regenerated in `Gen/FnDeriveKeys.lean`
+(`translate/fn_targets/DeriveKeys.b1819.json`).  HKDF, secp256k1 and BIP32 are declared externals = explicit function
+parameters, over which every theorem quantifies; `Xpriv` is seen through the one field the code reads (`private_key`),
+`bitcoin::Network` as its unit variants.  What is proved from the source text: which bytes feed which primitive (seed /
+keys id / info string / salt), the slice arithmetic `ndx .. ndx + 32` of the 192-byte buffer, the order of the result
+tuple, the BIP32 paths and LND key families, and which parameters do not reach the result at all. -/
+section DeriveKeys
+open VlsModel.Gen.FnDeriveKeys
+
+
+/-- **C18_fn_native_new.** the constructor stores the network and nothing else -/
+theorem C18_fn_native_new (net : Network) : NativeKeyDerive.new net = ⟨net⟩ := rfl
+
+/-- bytes `32k .. 32k+32` of a buffer, on the generated side (`List Nat`) -/
+def chunkN (buf : List Nat) (k : Nat) : List Nat := (buf.drop (32 * k)).take 32
+
+theorem toN_slice32 (b : Bytes) (k : Nat) : toN (slice32 b k) = chunkN (toN b) k := by
+  simp [toN, slice32, chunkN, List.map_take, List.map_drop]
+
+/-- **C18_fn_native_channel_keys.** the generated body of `NativeKeyDerive::channel_keys`, for any `hkdf_sha256_keys`
+    whose output has the 192 bytes of its return type `[u8; 192]` and any `SecretKey::from_slice`: the buffer is
+    `hkdf_sha256_keys(keys_id, "c-lightning", [])`, key number `k` is `from_slice(buf[32k .. 32k+32]).unwrap()` in the order
+    funding, revocation, htlc, payment, delayed, and the commitment seed is bytes 160..192.  No overflow, no slice
+    panic, no `try_into` panic; the only possible panic is a refused `from_slice`. -/
+theorem C18_fn_native_channel_keys {SK Ctx : Type} (kdf : List Nat → List Nat → List Nat → List Nat)
+    (fs : List Nat → Option SK) (self : NativeKeyDerive) (seed kid : List Nat) (bi : Nat) (mk : Xpriv SK) (ctx : Ctx)
+    (hlen : (kdf kid (toN Gen.KeyDeriveUse.infoNativeKeys) []).length = 192) :
+    NativeKeyDerive.channel_keys kdf fs self seed kid bi mk ctx =
+      (do let buf := kdf kid (toN Gen.KeyDeriveUse.infoNativeKeys) []
+          let f ← Rs.unwrap (fs (chunkN buf 0))
+          let r ← Rs.unwrap (fs (chunkN buf 1))
+          let h ← Rs.unwrap (fs (chunkN buf 2))
+          let p ← Rs.unwrap (fs (chunkN buf 3))
+          let d ← Rs.unwrap (fs (chunkN buf 4))
+          pure (f, r, h, p, d, chunkN buf 5)) := by
+  have hi : toN Gen.KeyDeriveUse.infoNativeKeys = [99, 45, 108, 105, 103, 104, 116, 110, 105, 110, 103] := by decide
+  rw [hi] at hlen ⊢
+  simp [NativeKeyDerive.channel_keys, Rs.uadd, Rs.USIZE_MAX, Rs.slice, Rs.arrayOfSlice, hlen, chunkN]
+
+/-- **C18_fn_native_channel_keys_model.** with `hkdf_sha256_keys` the executable model (`hkdfSha256Keys`, validated byte
+    for byte against crypto_utils.rs) and a `from_slice` that accepts the six chunks, the generated body returns exactly
+    the six secrets of the model's `nativeChanKeysFn`, in the order of its `Secrets6`. -/
+theorem C18_fn_native_channel_keys_model {Ctx : Type} (kdf : List Nat → List Nat → List Nat → List Nat)
+    (hk : ∀ a b c, kdf (toN a) (toN b) (toN c) = toN (hkdfSha256Keys a b c))
+    (fs : List Nat → Option (List Nat)) (hfs : ∀ l, l.length = 32 → fs l = some l)
+    (self : NativeKeyDerive) (seed : List Nat) (i : ChanKeysIn) (bi : Nat) (mk : Xpriv (List Nat)) (ctx : Ctx)
+    (hlen : (hkdfSha256Keys i.keysId Gen.KeyDeriveUse.infoNativeKeys []).length = 192) :
+    NativeKeyDerive.channel_keys kdf fs self seed (toN i.keysId) bi mk ctx =
+      .ok (toN (nativeChanKeysFn i).funding, toN (nativeChanKeysFn i).revocation, toN (nativeChanKeysFn i).htlc,
+           toN (nativeChanKeysFn i).payment, toN (nativeChanKeysFn i).delayed, toN (nativeChanKeysFn i).commitmentSeed) := by
+  have he := hk i.keysId Gen.KeyDeriveUse.infoNativeKeys []
+  have hl : (kdf (toN i.keysId) (toN Gen.KeyDeriveUse.infoNativeKeys) []).length = 192 := by
+    have : (toN ([] : Bytes)) = [] := rfl
+    rw [this] at he; rw [he, toN_length, hlen]
+  have hc : ∀ k, k < 6 → (chunkN (toN (hkdfSha256Keys i.keysId Gen.KeyDeriveUse.infoNativeKeys [])) k).length = 32 := by
+    intro k hk6
+    simp only [chunkN, List.length_take, List.length_drop, toN_length, hlen]; omega
+  have he' : kdf (toN i.keysId) (toN Gen.KeyDeriveUse.infoNativeKeys) [] =
+      toN (hkdfSha256Keys i.keysId Gen.KeyDeriveUse.infoNativeKeys []) := he
+  rw [C18_fn_native_channel_keys kdf fs self seed (toN i.keysId) bi mk ctx hl, he']
+  simp only [hfs _ (hc 0 (by decide)), hfs _ (hc 1 (by decide)), hfs _ (hc 2 (by decide)), hfs _ (hc 3 (by decide)),
+    hfs _ (hc 4 (by decide)), Rs.unwrap, Rs.bind_ok, Rs.pure_eq, nativeChanKeysFn, toN_slice32]
+
+/-- **C18_fn_native_channel_keys_inputs.** what the parameter-use table of `x_keys.py` (`Gen.KeyDeriveUse.nativeChanKeys`)
+    asserts, now read off the regenerated body: the native `channel_keys` is the same function whatever `self`
+    (network), `seed`, `basepoint_index`, `master_key` and secp context it is handed — only `keys_id` reaches the keys. -/
+theorem C18_fn_native_channel_keys_inputs {SK Ctx : Type} (kdf : List Nat → List Nat → List Nat → List Nat)
+    (fs : List Nat → Option SK) (self self' : NativeKeyDerive) (seed seed' kid : List Nat) (bi bi' : Nat)
+    (mk mk' : Xpriv SK) (ctx ctx' : Ctx) :
+    NativeKeyDerive.channel_keys kdf fs self seed kid bi mk ctx
+      = NativeKeyDerive.channel_keys kdf fs self' seed' kid bi' mk' ctx' ∧
+    Gen.KeyDeriveUse.nativeChanKeys = ⟨false, true, false, false, false⟩ := ⟨rfl, by decide⟩
+
+/-- **C18_fn_master_key.** the three `master_key` bodies: Native = `Xpriv::new_master(network, hkdf_sha256(seed,
+    "bip32 seed", []))`, Ldk and Lnd = `Xpriv::new_master(network, seed)`; a refused `new_master` is the `expect` panic.
+    So `master_key` is a function of `(self.network, seed)` and nothing else (what `Keys.maskIn` assumes when it counts a
+    read of `master_key` as a read of seed and network). -/
+theorem C18_fn_master_key {SK : Type} (hkdf : List Nat → List Nat → List Nat → List Nat)
+    (nm : Network → List Nat → Option (Xpriv SK)) (net : Network) (seed : List Nat) :
+    NativeKeyDerive.master_key hkdf nm ⟨net⟩ seed = Rs.unwrap (nm net (hkdf seed [98, 105, 112, 51, 50, 32, 115, 101, 101, 100] [])) ∧
+    LdkKeyDerive.master_key nm ⟨net⟩ seed = Rs.unwrap (nm net seed) ∧
+    LndKeyDerive.master_key nm ⟨net⟩ seed = Rs.unwrap (nm net seed) := by
+  refine ⟨?_, ?_, ?_⟩
+  · simp only [NativeKeyDerive.master_key, bind_pure]
+  · simp only [LdkKeyDerive.master_key, bind_pure]
+  · simp only [LndKeyDerive.master_key, bind_pure]
+
+/-- **C18_fn_node_keys.** the node key of the three styles: Native = `from_slice(hkdf_sha256(seed, "nodeid", []))`,
+    Ldk = the private key of the master key's child `0'`, Lnd = `derive_key_lnd(master, family 6, index 0)`; the public
+    key is `from_secret_key` of it (Native, Ldk).  A function of `(network, seed)` only. -/
+theorem C18_fn_node_keys {Ctx PK SK CN : Type} (hkdf : List Nat → List Nat → List Nat → List Nat)
+    (fs : List Nat → Option SK) (pub : Ctx → SK → PK) (nm : Network → List Nat → Option (Xpriv SK))
+    (hard : Nat → Option CN) (dp : Xpriv SK → Ctx → List CN → Option (Xpriv SK))
+    (dkl : Ctx → Network → Xpriv SK → Nat → Nat → PK × SK) (net : Network) (seed : List Nat) (ctx : Ctx) :
+    NativeKeyDerive.node_keys hkdf fs pub ⟨net⟩ seed ctx
+      = (do let k ← Rs.unwrap (fs (hkdf seed [110, 111, 100, 101, 105, 100] [])); pure (pub ctx k, k)) ∧
+    LdkKeyDerive.node_keys nm hard dp pub ⟨net⟩ seed ctx
+      = (do let m ← Rs.unwrap (nm net seed); let c ← Rs.unwrap (hard 0); let x ← Rs.unwrap (dp m ctx [c])
+            pure (pub ctx x.private_key, x.private_key)) ∧
+    LndKeyDerive.node_keys nm dkl ⟨net⟩ seed ctx
+      = (do let m ← Rs.unwrap (nm net seed); pure (dkl ctx net m 6 0)) := by
+  refine ⟨?_, ?_, ?_⟩
+  · simp only [NativeKeyDerive.node_keys]
+  · simp only [LdkKeyDerive.node_keys, LdkKeyDerive.master_key, bind_assoc, bind_pure]
+  · simp only [LndKeyDerive.node_keys, LndKeyDerive.master_key, bind_assoc, bind_pure]
+
+/-- **C18_fn_lnd_channel_keys.** the LND body: the commitment seed is bytes 160..192 of the same HKDF buffer as for the
+    native style, the five keys are `derive_key_lnd(network, master_key, family k, basepoint_index)` for the families
+    0 (funding), 1 (revocation), 2 (htlc), 3 (payment), 4 (delayed).  `basepoint_index` — the manager's counter — is an
+    argument of every one of them. -/
+theorem C18_fn_lnd_channel_keys {SK Ctx PK : Type} (kdf : List Nat → List Nat → List Nat → List Nat) (newCtx : Ctx)
+    (dkl : Ctx → Network → Xpriv SK → Nat → Nat → PK × SK) (net : Network) (seed kid : List Nat) (bi : Nat)
+    (mk : Xpriv SK) (ctx : Ctx) (hlen : (kdf kid (toN Gen.KeyDeriveUse.infoNativeKeys) []).length = 192) :
+    LndKeyDerive.channel_keys kdf newCtx dkl ⟨net⟩ seed kid bi mk ctx =
+      .ok ((dkl newCtx net mk 0 bi).2, (dkl newCtx net mk 1 bi).2, (dkl newCtx net mk 2 bi).2, (dkl newCtx net mk 3 bi).2,
+           (dkl newCtx net mk 4 bi).2, chunkN (kdf kid (toN Gen.KeyDeriveUse.infoNativeKeys) []) 5) := by
+  have hi : toN Gen.KeyDeriveUse.infoNativeKeys = [99, 45, 108, 105, 103, 104, 116, 110, 105, 110, 103] := by decide
+  rw [hi] at hlen ⊢
+  simp [LndKeyDerive.channel_keys, Rs.uadd, Rs.USIZE_MAX, Rs.slice, Rs.arrayOfSlice, hlen, chunkN]
+
+/-- **C18_fn_lnd_reads_counter.** hence the exclusion of LND in the statement of C18 is read off the source: there is a
+    `derive_key_lnd` (any injective one) for which two values of the manager's counter give different funding keys. -/
+theorem C18_fn_lnd_reads_counter :
+    ∃ (dkl : Unit → Network → Xpriv Nat → Nat → Nat → Unit × Nat),
+      LndKeyDerive.channel_keys (fun _ _ _ => List.replicate 192 0) () dkl ⟨.Bitcoin⟩ [] [] 0 ⟨0⟩ ()
+        ≠ LndKeyDerive.channel_keys (fun _ _ _ => List.replicate 192 0) () dkl ⟨.Bitcoin⟩ [] [] 1 ⟨0⟩ () := by
+  refine ⟨fun _ _ _ fam idx => ((), 10 * idx + fam), ?_⟩
+  rw [C18_fn_lnd_channel_keys _ _ _ _ _ _ _ _ _ (List.length_replicate ..), C18_fn_lnd_channel_keys _ _ _ _ _ _ _ _ _ (List.length_replicate ..)]
+  simp
+
+/-- **C18_fn_account_key.** `get_account_extended_key`: Native and Ldk share one body (`m/0/0` of
+    `new_master(network, hkdf_sha256(seed, "bip32 seed", []))`), Lnd is `m/84'/0'/0'` of `new_master(network, seed)` -/
+theorem C18_fn_account_key {Ctx SK CN : Type} (hkdf : List Nat → List Nat → List Nat → List Nat)
+    (nm : Network → List Nat → Option (Xpriv SK)) (norm hard : Nat → Option CN)
+    (dp : Xpriv SK → Ctx → List CN → Option (Xpriv SK)) (ctx : Ctx) (net : Network) (seed : List Nat) :
+    KeyDerivationStyle.get_account_extended_key hkdf nm norm dp hard .Native ctx net seed
+      = KeyDerivationStyle.get_account_extended_key hkdf nm norm dp hard .Ldk ctx net seed ∧
+    KeyDerivationStyle.get_account_extended_key hkdf nm norm dp hard .Native ctx net seed
+      = (do let m ← Rs.unwrap (nm net (hkdf seed [98, 105, 112, 51, 50, 32, 115, 101, 101, 100] []))
+            let c ← Rs.unwrap (norm 0); let a ← Rs.unwrap (dp m ctx [c])
+            let c' ← Rs.unwrap (norm 0); let b ← Rs.unwrap (dp a ctx [c']); pure b) ∧
+    KeyDerivationStyle.get_account_extended_key hkdf nm norm dp hard .Lnd ctx net seed
+      = (do let m ← Rs.unwrap (nm net seed)
+            let p ← Rs.unwrap (hard 84); let a ← Rs.unwrap (dp m ctx [p])
+            let c ← Rs.unwrap (hard 0); let b ← Rs.unwrap (dp a ctx [c])
+            let d ← Rs.unwrap (hard 0); let e ← Rs.unwrap (dp b ctx [d]); pure e) := by
+  refine ⟨rfl, ?_, ?_⟩
+  · simp only [KeyDerivationStyle.get_account_extended_key, get_account_extended_key_native, bind_assoc, bind_pure]
+  · simp only [KeyDerivationStyle.get_account_extended_key, get_account_extended_key_lnd, bind_assoc, bind_pure]
+
+/-- **C18_fn_style_from_str.** the three style names and nothing else -/
+theorem C18_fn_style_from_str (s : String) :
+    KeyDerivationStyle.from_str s =
+      (if s = "native" then .ok .Native else if s = "ldk" then .ok .Ldk else if s = "lnd" then .ok .Lnd
+       else .error (.err "()")) := by
+  unfold KeyDerivationStyle.from_str
+  split <;> simp_all [Rs.fail]
+
+
+end DeriveKeys
+
+
+/-! ## my_keys_manager.rs (round 9): `get_channel_keys_with_id`, `get_channel_keys_with_keys_id`, `derive_channel_keys`,
+`get_secure_random_bytes`, `get_channel_id`, `increment_channel_id_child_index`, `get_onion_reply_secret`, `derive_secret`
+as regenerated in `Gen/FnKeysMgr.lean` (`translate/fn_targets/KeysMgr.b1819.json`).  The three `Atomic*` counters are
+integers of the generated `MyKeysManager` structure (`fetch_add` = return the old value, store the wrapped sum: additive
+extension of rs2lean); `&self` methods that advance one return the new manager.  `key_derive(style, network)` and the
+`dyn KeyDerive` methods, the hash engine (`input` = a pure function old engine × bytes → new engine), BIP32 and
+`InMemorySigner::new` are declared externals.  What is proved: which counter reaches key material (only
+`lnd_basepoint_index`, as the `basepoint_index` argument of `channel_keys`), which counters a derivation advances (= the
+model's `KMState.afterDerive`), and that with the model's primitives plugged in the generated function *is* `channelKeys`. -/
+section KeysMgr
+open VlsModel.Gen.FnKeysMgr
+
+variable {S SK Ctx St Net Signer KD CN H : Type}
+
+/-- the three counters of a generated `MyKeysManager` as the model's `KMState` -/
+def kmOf (m : MyKeysManager S SK Ctx St Net) : KMState :=
+  ⟨m.channel_id_child_index, m.rand_bytes_child_index, m.lnd_basepoint_index⟩
+
+/-- **C18_fn_increment_channel_id_child_index.** `fetch_add(1)` on `channel_id_child_index`: returns the old value, the
+    other two counters and every key field are unchanged -/
+theorem C18_fn_increment_channel_id_child_index (m : MyKeysManager S SK Ctx St Net) :
+    (MyKeysManager.increment_channel_id_child_index m).2 = m.channel_id_child_index ∧
+    (MyKeysManager.increment_channel_id_child_index m).1
+      = { m with channel_id_child_index := (m.channel_id_child_index + 1) % 2 ^ 64 } := by
+  simp [MyKeysManager.increment_channel_id_child_index, Rs.uwrapAdd, Rs.USIZE_MAX]
+
+/-- **C18_fn_get_secure_random_bytes.** the entropy source: on success exactly `rand_bytes_child_index` is advanced
+    (wrapping `usize`), nothing else of the manager changes -/
+theorem C18_fn_get_secure_random_bytes (hard : Nat → Option CN) (dp : Xpriv SK → Ctx → List CN → Option (Xpriv SK))
+    (asref : SK → List Nat) (inp : S → List Nat → S) (fe : S → H) (tba : H → List Nat)
+    (m m' : MyKeysManager S SK Ctx St Net) (r : List Nat)
+    (h : MyKeysManager.get_secure_random_bytes hard dp asref inp fe tba m = .ok (m', r)) :
+    m' = { m with rand_bytes_child_index := (m.rand_bytes_child_index + 1) % 2 ^ 64 } := by
+  simp only [MyKeysManager.get_secure_random_bytes] at h
+  cases h1 : hard (Rs.utrunc Rs.U32_MAX m.rand_bytes_child_index) with
+  | none => simp [h1, Rs.unwrap, Rs.panic] at h
+  | some c =>
+    simp only [h1, Rs.unwrap, Rs.bind_ok, Rs.pure_eq] at h
+    cases h2 : dp m.rand_bytes_master_key m.secp_ctx [c] with
+    | none => simp [h2, Rs.panic] at h
+    | some x =>
+      simp only [h2, Rs.bind_ok, Except.ok.injEq, Prod.mk.injEq] at h
+      rw [← h.1]; simp [Rs.uwrapAdd, Rs.USIZE_MAX]
+
+/-- **C18_fn_get_channel_keys_with_keys_id.** the generated body of `get_channel_keys_with_keys_id(keys_id, value)`:
+    whenever it returns, (1) the signer is `InMemorySigner::new(ctx, funding, revocation, payment, delayed, htlc,
+    commitment_seed, value, keys_id, entropy)` where the six secrets are
+    `key_derive(style, network).channel_keys(self.seed, keys_id, self.lnd_basepoint_index, self.master_key, ctx)` in the
+    order of *its* result tuple (funding, revocation, htlc, payment, delayed) — the permutation between the two orders is
+    part of the statement; (2) the manager afterwards differs from the manager before exactly by
+    `lnd_basepoint_index + 1 (mod 2^32)` and `rand_bytes_child_index + 1 (mod 2^64)` = the model's `KMState.afterDerive`.
+    The only way manager state reaches key material is the `basepoint_index` argument. -/
+theorem C18_fn_get_channel_keys_with_keys_id (kd : St → Net → KD) (newCtx : Ctx)
+    (ck : KD → List Nat → List Nat → Nat → Xpriv SK → Ctx → Rs.M (SK × SK × SK × SK × SK × List Nat))
+    (hard : Nat → Option CN) (dp : Xpriv SK → Ctx → List CN → Option (Xpriv SK))
+    (asref : SK → List Nat) (inp : S → List Nat → S) (fe : S → H) (tba : H → List Nat)
+    (new : Ctx → SK → SK → SK → SK → SK → List Nat → Nat → List Nat → List Nat → Signer)
+    (m m' : MyKeysManager S SK Ctx St Net) (kid : List Nat) (v : Nat) (s : Signer)
+    (h : MyKeysManager.get_channel_keys_with_keys_id kd newCtx ck hard dp asref inp fe tba new m kid v = .ok (m', s)) :
+    (∃ f r ht p d cs rnd,
+      ck (kd m.key_derivation_style m.network) m.seed kid m.lnd_basepoint_index m.master_key newCtx
+        = .ok (f, r, ht, p, d, cs) ∧
+      s = new newCtx f r p d ht cs v kid rnd) ∧
+    m' = { m with lnd_basepoint_index := (m.lnd_basepoint_index + 1) % 2 ^ 32,
+                  rand_bytes_child_index := (m.rand_bytes_child_index + 1) % 2 ^ 64 } := by
+  simp only [MyKeysManager.get_channel_keys_with_keys_id] at h
+  cases hck : ck (kd m.key_derivation_style m.network) m.seed kid m.lnd_basepoint_index m.master_key newCtx with
+  | error e => simp [hck] at h
+  | ok t =>
+    obtain ⟨f, r, ht, p, d, cs⟩ := t
+    simp only [hck, Rs.bind_ok] at h
+    cases hr : MyKeysManager.get_secure_random_bytes hard dp asref inp fe tba
+        { m with lnd_basepoint_index := Rs.uwrapAdd Rs.U32_MAX m.lnd_basepoint_index 1 } with
+    | error e => simp [hr] at h
+    | ok t2 =>
+      obtain ⟨m2, rnd⟩ := t2
+      have hm2 := C18_fn_get_secure_random_bytes hard dp asref inp fe tba _ _ _ hr
+      simp only [hr, Rs.bind_ok, Rs.pure_eq, Except.ok.injEq, Prod.mk.injEq] at h
+      refine ⟨⟨f, r, ht, p, d, cs, rnd, rfl, h.2.symm⟩, ?_⟩
+      rw [← h.1, hm2]; simp [Rs.uwrapAdd, Rs.U32_MAX]
+
+/-- the counters after a successful derivation are the model's `afterDerive` (the entropy counter is a `usize`; the model
+    counts it without the wrap, so below `usize::MAX`) -/
+theorem C18_fn_counters_after_derive (m : MyKeysManager S SK Ctx St Net) (hlt : m.rand_bytes_child_index + 1 < 2 ^ 64) :
+    kmOf { m with lnd_basepoint_index := (m.lnd_basepoint_index + 1) % 2 ^ 32,
+                  rand_bytes_child_index := (m.rand_bytes_child_index + 1) % 2 ^ 64 } = (kmOf m).afterDerive := by
+  simp [kmOf, KMState.afterDerive, Nat.mod_eq_of_lt hlt]
+
+/-- **C18_fn_get_channel_keys_with_id.** `get_channel_keys_with_id(channel_id, value)` is
+    `get_channel_keys_with_keys_id(key_derive(style, network).keys_id(channel_id, self.channel_seed_base), value)`;
+    `derive_channel_keys(value, keys_id)` (what `spend_spendable_outputs` calls) is `get_channel_keys_with_keys_id(keys_id, value)` -/
+theorem C18_fn_get_channel_keys_with_id (kd : St → Net → KD) (kidf : KD → List Nat → List Nat → List Nat) (newCtx : Ctx)
+    (ck : KD → List Nat → List Nat → Nat → Xpriv SK → Ctx → Rs.M (SK × SK × SK × SK × SK × List Nat))
+    (hard : Nat → Option CN) (dp : Xpriv SK → Ctx → List CN → Option (Xpriv SK))
+    (asref : SK → List Nat) (inp : S → List Nat → S) (fe : S → H) (tba : H → List Nat)
+    (new : Ctx → SK → SK → SK → SK → SK → List Nat → Nat → List Nat → List Nat → Signer)
+    (m : MyKeysManager S SK Ctx St Net) (cid kid : List Nat) (v : Nat) :
+    MyKeysManager.get_channel_keys_with_id kd kidf newCtx ck hard dp asref inp fe tba new m cid v
+      = MyKeysManager.get_channel_keys_with_keys_id kd newCtx ck hard dp asref inp fe tba new m
+          (kidf (kd m.key_derivation_style m.network) cid m.channel_seed_base) v ∧
+    MyKeysManager.derive_channel_keys kd newCtx ck hard dp asref inp fe tba new m v kid
+      = MyKeysManager.get_channel_keys_with_keys_id kd newCtx ck hard dp asref inp fe tba new m kid v := by
+  constructor
+  · simp only [MyKeysManager.get_channel_keys_with_id]
+    cases MyKeysManager.get_channel_keys_with_keys_id kd newCtx ck hard dp asref inp fe tba new m
+        (kidf (kd m.key_derivation_style m.network) cid m.channel_seed_base) v <;> rfl
+  · simp only [MyKeysManager.derive_channel_keys]
+    cases MyKeysManager.get_channel_keys_with_keys_id kd newCtx ck hard dp asref inp fe tba new m kid v <;> rfl
+
+/-- bytes back from the generated side -/
+def ofN (l : List Nat) : Bytes := l.map UInt8.ofNat
+
+theorem ofN_toN (b : Bytes) : ofN (toN b) = b := by
+  induction b with
+  | nil => rfl
+  | cons x xs ih => simp only [ofN, toN, List.map_cons] at ih ⊢; rw [ih]; simp
+
+/-- **C18_fn_keys_with_id_model.** the plumbing of `get_channel_keys_with_id` is the model's `channelKeys`: plug the model's
+    primitives in for the declared externals (`key_derive(style, network)` = the pair; its `keys_id` = `keysIdOf`; its
+    `channel_keys` = `P.chanKeys` on the inputs it is handed; `InMemorySigner::new` = the record of what it receives,
+    `KeyMaterial`), and the generated function returns `channelKeys P style seed net id` *of the manager's counters* —
+    which seed, which seed base, which counter, and the order in which the six secrets are handed to the signer are all
+    read from the source. -/
+theorem C18_fn_keys_with_id_model (P : Prims) (m : MyKeysManager Unit Bytes Unit Keys.Style Keys.Net) (seed id : Bytes) (v : Nat)
+    (hseed : m.seed = toN seed) (hbase : m.channel_seed_base = toN (channelSeedBase P seed)) :
+    (MyKeysManager.get_channel_keys_with_id (fun (s : Keys.Style) (n : Keys.Net) => (s, n))
+        (fun (k : Keys.Style × Keys.Net) cid base => toN (keysIdOf P k.1 (ofN base) (ofN cid))) ()
+        (fun (k : Keys.Style × Keys.Net) sd kid bi (_ : Xpriv Bytes) (_ : Unit) =>
+          (.ok ((P.chanKeys k.1 (maskIn (useOf k.1) ⟨ofN sd, k.2, ofN kid, bi⟩)).funding,
+                (P.chanKeys k.1 (maskIn (useOf k.1) ⟨ofN sd, k.2, ofN kid, bi⟩)).revocation,
+                (P.chanKeys k.1 (maskIn (useOf k.1) ⟨ofN sd, k.2, ofN kid, bi⟩)).htlc,
+                (P.chanKeys k.1 (maskIn (useOf k.1) ⟨ofN sd, k.2, ofN kid, bi⟩)).payment,
+                (P.chanKeys k.1 (maskIn (useOf k.1) ⟨ofN sd, k.2, ofN kid, bi⟩)).delayed,
+                toN (P.chanKeys k.1 (maskIn (useOf k.1) ⟨ofN sd, k.2, ofN kid, bi⟩)).commitmentSeed) : Rs.M _))
+        (fun n => some n) (fun x (_ : Unit) (_ : List Nat) => some x) toN (fun (s : Unit) _ => s) (fun _ => ()) (fun (_ : Unit) => [])
+        (fun (_ : Unit) f r p d h cs (_ : Nat) kid (_ : List Nat) => (⟨ofN kid, f, r, h, p, d, ofN cs⟩ : KeyMaterial))
+        m (toN id) v).map Prod.snd
+      = .ok (channelKeys P m.key_derivation_style seed m.network id (kmOf m)) := by
+  simp [MyKeysManager.get_channel_keys_with_id, MyKeysManager.get_channel_keys_with_keys_id,
+    MyKeysManager.get_secure_random_bytes, Rs.unwrap, hseed, hbase, ofN_toN, channelKeys, channelKeysFromKeysId, kmOf,
+    Except.map]
+
+/-- **C18_fn_get_channel_id.** `get_channel_id()` (the id of `new_channel_with_random_id`; the model's `Prims.randomId counter`):
+    `ChannelId::new(sha256(unique_start ‖ child(channel_id_master_key, counter as u32)))`; on success only
+    `channel_id_child_index` advances (the model's `.newRandom`) — neither counter that `get_channel_keys_with_keys_id`
+    reads or writes is touched. -/
+theorem C18_fn_get_channel_id (hard : Nat → Option CN) (dp : Xpriv SK → Ctx → List CN → Option (Xpriv SK))
+    (asref : SK → List Nat) (inp : S → List Nat → S) (fe : S → H) (tba : H → List Nat) (cnew : List Nat → List Nat)
+    (m m' : MyKeysManager S SK Ctx St Net) (id : List Nat)
+    (h : MyKeysManager.get_channel_id hard dp asref inp fe tba cnew m = .ok (m', id)) :
+    m' = { m with channel_id_child_index := (m.channel_id_child_index + 1) % 2 ^ 64 } ∧
+    ∃ c x, hard (m.channel_id_child_index % 2 ^ 32) = some c ∧ dp m.channel_id_master_key m.secp_ctx [c] = some x ∧
+      id = cnew (tba (fe (inp m.unique_start (asref x.private_key)))) := by
+  simp only [MyKeysManager.get_channel_id, MyKeysManager.increment_channel_id_child_index] at h
+  have hu : Rs.utrunc Rs.U32_MAX m.channel_id_child_index = m.channel_id_child_index % 2 ^ 32 := by
+    simp [Rs.utrunc, Rs.U32_MAX]
+  rw [hu] at h
+  cases h1 : hard (m.channel_id_child_index % 2 ^ 32) with
+  | none => simp [h1, Rs.unwrap, Rs.panic] at h
+  | some c =>
+    simp only [h1, Rs.unwrap, Rs.bind_ok, Rs.pure_eq] at h
+    cases h2 : dp m.channel_id_master_key m.secp_ctx [c] with
+    | none => simp [h2, Rs.panic] at h
+    | some x =>
+      simp only [h2, Rs.bind_ok, Except.ok.injEq, Prod.mk.injEq] at h
+      refine ⟨?_, c, x, rfl, h2, h.2.symm⟩
+      rw [← h.1]; simp [Rs.uwrapAdd, Rs.USIZE_MAX]
+
+/-- **C18_fn_seed_secrets.** the two other secrets the manager derives from the node seed: `get_onion_reply_secret` =
+    `hkdf_sha256(seed, "onion reply secret", [])`, `derive_secret(info)` =
+    `from_slice(hkdf_sha256(hkdf_sha256(seed, "derived secrets", []), info, []))` — different info strings than every
+    channel-key derivation (`"peer seed"`, `"per-peer seed"`, `"c-lightning"`, `"bip32 seed"`, `"nodeid"`), no counter. -/
+theorem C18_fn_seed_secrets (hkdf : List Nat → List Nat → List Nat → List Nat) (fs : List Nat → Option SK)
+    (m : MyKeysManager S SK Ctx St Net) (info : List Nat) :
+    MyKeysManager.get_onion_reply_secret hkdf m
+      = hkdf m.seed [111, 110, 105, 111, 110, 32, 114, 101, 112, 108, 121, 32, 115, 101, 99, 114, 101, 116] [] ∧
+    MyKeysManager.derive_secret hkdf fs m info
+      = Rs.unwrap (fs (hkdf (hkdf m.seed [100, 101, 114, 105, 118, 101, 100, 32, 115, 101, 99, 114, 101, 116, 115] []) info [])) := by
+  constructor
+  · rfl
+  · simp only [MyKeysManager.derive_secret, bind_pure]
+
+end KeysMgr
+
+
+/-! ## derive.rs (round 9): `LdkKeyDerive::channel_keys` (`Gen/FnDeriveLdk.lean`, `translate/fn_targets/DeriveLdk.b1819.json`)
+
+The body defines a local macro (`key_step!`); the target file declares the normalisation rules that delete the definition
+and expand its five invocations textually (each rule must apply exactly the declared number of times, otherwise the
+function is not translated and the theorem below does not build).  The SHA-256 engine is an opaque value with the
+declared externals `Sha256::engine`, `input` (receiver-updating), `from_engine`. -/
+section DeriveLdk
+open VlsModel.Gen.FnDeriveLdk
+
+theorem ofN_append (a b : List Nat) : ofN (a ++ b) = ofN a ++ ofN b := by simp [ofN]
+
+theorem slice_full {α : Type} (l : List α) : Rs.slice l 0 l.length = .ok l := by
+  simp [Rs.slice]
+
+/-- the hash engine as the byte string it has been fed, hashed by `from_engine` -/
+def shaN (s : List Nat) : List Nat := toN (Sha256.sha256 (ofN s))
+
+/-- `ChildNumber::from_hardened_idx`: refuses indices ≥ 2^31 (rust-bitcoin) -/
+def hardIdx (n : Nat) : Option Nat := if n < 2 ^ 31 then some n else none
+
+/-- **C18_fn_ldk_channel_keys.** the regenerated body of `LdkKeyDerive::channel_keys` (the local macro `key_step!`
+    expanded by declared normalisation rules) is the model's `ldkChanKeysFn`: instantiate the hash engine by the bytes it
+    is fed (`input` = append, `from_engine` = SHA-256 of them), `from_hardened_idx` by its range check, and let
+    `derive_priv` deliver what the BIP32 oracle `child` says for `m/3'/idx'`; then the generated function returns exactly
+    the six secrets of the model (and panics exactly where the model says `none`: a keys id whose first eight bytes read
+    ≥ 2^31).  Read from the source: the order `keys_id ‖ seed ‖ child key` of the channel seed, the six labels, the chain
+    commitment seed → funding → revocation → payment → delayed → htlc, and the order of the result tuple. -/
+theorem C18_fn_ldk_channel_keys {Ctx : Type} (child : Bytes → Net → Nat → Bytes) (net : Net)
+    (dp : Xpriv (List Nat) → Ctx → List Nat → Option (Xpriv (List Nat)))
+    (self : LdkKeyDerive) (seed kid : Bytes) (bi : Nat) (mk cm : Xpriv (List Nat)) (ctx : Ctx)
+    (hk : 8 ≤ kid.length)
+    (h3 : dp mk ctx [3] = some cm)
+    (hc : dp cm ctx [be64 kid] = some ⟨toN (child seed net (be64 kid))⟩) :
+    LdkKeyDerive.channel_keys (fun l => .ok (be64 (ofN l))) ([] : List Nat) (fun s x => s ++ x) hardIdx dp id shaN id id some
+        self (toN seed) (toN kid) bi mk ctx
+      = (match ldkChanKeysFn child ⟨seed, net, kid, bi⟩ with
+         | some s => .ok (toN s.funding, toN s.revocation, toN s.htlc, toN s.payment, toN s.delayed, toN s.commitmentSeed)
+         | none => .error .panic) := by
+  have l1 : ofN [99, 111, 109, 109, 105, 116, 109, 101, 110, 116, 32, 115, 101, 101, 100] = strBytes "commitment seed" := by decide +kernel
+  have l2 : ofN [102, 117, 110, 100, 105, 110, 103, 32, 107, 101, 121] = strBytes "funding key" := by decide +kernel
+  have l3 : ofN [114, 101, 118, 111, 99, 97, 116, 105, 111, 110, 32, 98, 97, 115, 101, 32, 107, 101, 121] = strBytes "revocation base key" := by decide +kernel
+  have l4 : ofN [112, 97, 121, 109, 101, 110, 116, 32, 107, 101, 121] = strBytes "payment key" := by decide +kernel
+  have l5 : ofN [100, 101, 108, 97, 121, 101, 100, 32, 112, 97, 121, 109, 101, 110, 116, 32, 98, 97, 115, 101, 32, 107, 101, 121] = strBytes "delayed payment base key" := by decide +kernel
+  have l6 : ofN [72, 84, 76, 67, 32, 98, 97, 115, 101, 32, 107, 101, 121] = strBytes "HTLC base key" := by decide +kernel
+  have hsl : Rs.slice (toN kid) 0 8 = .ok (toN (kid.take 8)) := by
+    have : ¬ kid.length < 8 := by omega
+    simp [Rs.slice, this, toN, List.map_take]
+  have hbe : be64 (ofN (toN (kid.take 8))) = be64 kid := by
+    rw [ofN_toN]; simp [be64, List.take_take]
+  simp only [LdkKeyDerive.channel_keys, hsl, Rs.bind_ok, hbe]
+  by_cases hlt : be64 kid < 2 ^ 31
+  · have hle : be64 kid ≤ Rs.U32_MAX := by simp [Rs.U32_MAX]; omega
+    have htr : Rs.utrunc Rs.U32_MAX (be64 kid) = be64 kid := by
+      simp [Rs.utrunc, Rs.U32_MAX]; omega
+    have hge : ¬ be64 kid ≥ 2 ^ 31 := by omega
+    simp [Rs.assert, hle, hardIdx, Rs.unwrap, h3, htr, hlt, hc, ldkChanKeysFn, hge, shaN, ofN_append, ofN_toN,
+      l1, l2, l3, l4, l5, l6, slice_full]
+  · have hge : be64 kid ≥ 2 ^ 31 := by omega
+    by_cases hle : be64 kid ≤ Rs.U32_MAX
+    · have htr : Rs.utrunc Rs.U32_MAX (be64 kid) = be64 kid := by
+        simp [Rs.utrunc, Rs.U32_MAX] at hle ⊢; omega
+      simp [Rs.assert, hle, hardIdx, Rs.unwrap, h3, htr, hlt, ldkChanKeysFn, hge, Rs.panic]
+    · simp [Rs.assert, hle, ldkChanKeysFn, hge, Rs.panic]
+
+end DeriveLdk
 
 end VlsModel.Props.C18Fn
